@@ -56,6 +56,7 @@ fn main() {
             "step" => mcw::steps::c01_step(&mut ctx),
             f => panic!("unknown family {}", f),
         },
+        "C02" => mcw::c02::run(&mut ctx),
         "C03" | "C11" => mcw::c03::run(&mut ctx),
         "C04" => mcw::steps::c04(&mut ctx),
         "C05" => mcw::steps::c05(&mut ctx),
@@ -75,7 +76,9 @@ fn main() {
     if let Some(f) = ctx.digests.as_mut() {
         let _ = f.flush();
     }
-    emit_result(&ctx.result_json().to_string());
+    if ctx.only.is_none() {
+        emit_result(&ctx.result_json().to_string());
+    }
 }
 
 #[repr(C)]
